@@ -258,6 +258,19 @@ class Exec:
             for s2, b in self.fork(s, self.truth(c)):
                 outs += self.eval(n.body if b else n.orelse, s2)
         return outs
+    def e_Dict(self, n, st):
+        """a dict display with constant string keys (or none): a fresh local dictionary (allocation recorded: `dictref_<rid>` is a new object)"""
+        if any(k is None or not (isinstance(k, ast.Constant) and isinstance(k.value, str)) for k in n.keys): raise Unsupported(f'dict display with non-constant keys: {ast.unparse(n)[:60]}')
+        cur = [(st, [])]
+        for k, vnode in zip(n.keys, n.values):
+            nxt = []
+            for s, items in cur:
+                for s2, v in self.eval(vnode, s): nxt.append((s2, items + [(k.value, v)]))
+            cur = nxt
+        outs = []
+        for s, items in cur:
+            s2, ref = self.new_dict(s, items); outs.append((s2.ev('alloc_dict', ref.rid, len(items)), ref))
+        return outs
     def e_Tuple(self, n, st):
         return [(s, VTup(vs)) for s, vs in self.eval_list(n.elts, st)]
     e_List = e_Tuple
